@@ -3,7 +3,7 @@
 From Coq Require Import List NArith ZArith Bool String Ascii Lia.
 From Cfg Require Import Model.RStr Model.LuaNum Model.Redis Model.RedisScripts Model.MapApi23 Model.MemMap23
                         Model.RedisMapBroker Model.RedisMapScripts
-                        Proofs.C18Lib Proofs.C18Redis Proofs.C23Redis Proofs.C23Lib Proofs.C23Add Proofs.C23Read Proofs.C23Add2.
+                        Proofs.C18Lib Proofs.C18Redis Proofs.C23Redis Proofs.C23Lib Proofs.C23Add Proofs.C23Read Proofs.C23Add2 Proofs.C23Add3.
 From Cfg Require Proofs.C18Stream Proofs.C18StreamP Proofs.C18StreamH Proofs.C18StreamQ.
 Import ListNotations.
 Open Scope string_scope.
@@ -25,8 +25,7 @@ Definition popts_ok (key : string) (o : mpopts) : bool :=
    (if String.eqb key "" then String.eqb (mp_mode o) "" && match mp_exp o with None => true | Some _ => false end
     else exp_okb (mp_exp o)))%bool.
 
-Definition ropts_ok (o : mropts) : bool :=
-  (String.eqb (mr_idem o) "" && match mr_exp o with None => true | Some _ => false end)%bool.
+Definition ropts_ok (o : mropts) : bool := (String.eqb (mr_idem o) "" && exp_okb (mr_exp o))%bool.
 
 Definition since_okb (top : N) (since : option (N * string)) (reverse : bool) : bool :=
   match since with
@@ -51,7 +50,8 @@ Definition op_ok (m : mmstate) (o : mop) : bool :=
        | Some c => negb (String.eqb key "") || negb (limit =? 0)%Z || negb (rev_bad rev_ (ch_epoch c))
        | None => String.eqb key "" && match rev_ with None => true | Some _ => false end
        end)%bool
-  | MClear _ | MTick _ | MCleanup _ _ | MStats _ => false
+  | MClear _ => true
+  | MTick _ | MCleanup _ _ | MStats _ => false
   end.
 
 Fixpoint run_ok (cf : mcfg) (m : mmstate) (ops : list mop) : bool :=
@@ -86,7 +86,8 @@ Definition chan_inv (n : N) (c : mchan) : Prop :=
 
 Record R (U : list string) (n : N) (rs : rstate) (m : mmstate) : Prop := mkRel {
   R_chan : forall ch, In ch U -> chan_rel rs ch (sfind ch (mm_chans m));
-  R_inv : forall ch c, sfind ch (mm_chans m) = Some c -> chan_inv n c
+  R_inv : forall ch c, sfind ch (mm_chans m) = Some c -> chan_inv n c;
+  R_cleanup : getk rs k_cleanup = None      (* no key TTL in the domain: nothing is ever registered for cleanup *)
 }.
 
 Lemma chan_inv_mono n n' c : (n <= n')%N -> chan_inv n c -> chan_inv n' c.
@@ -119,7 +120,7 @@ Lemma R_update U n n' rs m rs' m' c oc' :
   chan_rel rs' c oc' -> (forall c', oc' = Some c' -> chan_inv n' c') ->
   R U n' rs' m'.
 Proof.
-  intros HK Hc HR Hn [F _] Hch Hrel Hinv. constructor.
+  intros HK Hc HR Hn [F _] Hch Hrel Hinv. constructor; [| |rewrite F by apply k_cleanup_not_chan; apply (R_cleanup _ _ _ _ HR)].
   - intros ch Hin. rewrite Hch. destruct (String.eqb ch c) eqn:E.
     + apply String.eqb_eq in E. subst. exact Hrel.
     + apply String.eqb_neq in E. apply (chan_rel_frame rs); [|apply (R_chan _ _ _ _ HR); assumption].
@@ -272,7 +273,7 @@ Proof. split; [intros; apply getk_clear_outbox | reflexivity]. Qed.
 
 Lemma R_clear U n rs m : R U n rs m -> R U n (clear_outbox rs) m.
 Proof.
-  intros HR. constructor; [|apply (R_inv _ _ _ _ HR)].
+  intros HR. constructor; [|apply (R_inv _ _ _ _ HR)|rewrite getk_clear_outbox; apply (R_cleanup _ _ _ _ HR)].
   intros ch Hin. apply (chan_rel_frame rs); [intros; apply getk_clear_outbox | apply (R_chan _ _ _ _ HR); assumption].
 Qed.
 
@@ -517,7 +518,7 @@ Qed.
 
 Lemma R_mono U n n' rs m : (n <= n')%N -> R U n rs m -> R U n' rs m.
 Proof.
-  intros Hn HR. constructor; [apply (R_chan _ _ _ _ HR)|].
+  intros Hn HR. constructor; [apply (R_chan _ _ _ _ HR)| |apply (R_cleanup _ _ _ _ HR)].
   intros ch c E. apply (chan_inv_mono n); [assumption | apply (R_inv _ _ _ _ HR ch c E)].
 Qed.
 
@@ -536,19 +537,47 @@ Proof.
   assert (Hglen : List.length g = List.length (ch_items c)) by (rewrite <- Hg; rewrite map_length; reflexivity).
   set (v := mkRV (Some h) (state_view (ch_epoch c) (ch_state c)) smh (strm_view (ch_epoch c) g (ch_top c))).
   assert (Hviews : views rs0 ch v) by (unfold views, v; cbn [rv_meta rv_state rv_smeta rv_stream]; tauto).
-  unfold ropts_ok in Hro. apply andb_true_iff in Hro as [Hidem Hexp]. apply String.eqb_eq in Hidem.
-  destruct (mr_exp ro) eqn:Eexp; [discriminate|].
+  unfold ropts_ok in Hro. apply andb_true_iff in Hro as [Hidem Hexpb]. apply String.eqb_eq in Hidem.
+  assert (Hexp : exp_ok (mr_exp ro)).
+  { unfold exp_okb in Hexpb. unfold exp_ok. destruct (mr_exp ro) as [[eo ee]|]; [|exact I].
+    apply andb_true_iff in Hexpb as [A B]. apply negb_true_iff in A. apply String.eqb_neq in A. apply N.ltb_lt in B. split; assumption. }
   assert (Htb : (ch_top c + 1 < BOUND)%N) by (unfold C18Stream.BOUND; lia).
   assert (Hszb : (Z.to_N size < 9223372036854775808)%N) by lia.
   destruct key as [|kc key]; [congruence|].
   unfold step_goal. unfold rm_step. fold rs0. unfold rm_remove.
   cbn [is_ephemeral mc_mode N.eqb Pos.eqb andb]. cbv iota.
   unfold remove_keys, remove_args. cbn [is_ephemeral has_stream mc_mode mc_keyttl mc_size mc_sttl mc_mttl mc_ordered N.eqb Pos.eqb orb].
-  rewrite Hidem, Eexp. cbn [String.eqb]. unfold idem_expire. cbn [String.eqb].
-  change (millis 0) with "0". rewrite (zdec_nonneg size) by lia. unfold utoa.
-  cbn [ms_add map_shallow]. rewrite core_remove_eq.
+  rewrite Hidem. cbn [String.eqb]. unfold idem_expire. cbn [String.eqb].
+  change (millis 0) with "0". rewrite (zdec_nonneg size) by lia.
+  change (match mr_exp ro with Some (eo, _) => utoa eo | None => "" end) with (exp_off (mr_exp ro)).
+  change (match mr_exp ro with Some (_, ee) => ee | None => "" end) with (exp_epoch (mr_exp ro)).
+  unfold utoa.
+  cbn [ms_add map_shallow]. rewrite core_remove2_eq.
   cbn [mm_step]. unfold mm_remove. cbn [is_ephemeral mc_mode N.eqb Pos.eqb andb]. rewrite Hidem. cbn [String.eqb].
-  unfold hub_remove. rewrite Ec, Eexp. cbn [cas_check].
+  unfold hub_remove. rewrite Ec. cbv zeta. cbn [chan_pos fst snd].
+  replace (cas_check (ch_epoch c) (mr_exp ro) (sfind (String kc key) (ch_state c)))
+    with (cas_dec (ch_epoch c) (mr_exp ro) (sfind (String kc key) (ch_state c)))
+    by (unfold cas_dec; destruct (mr_exp ro) as [[? ?]|]; reflexivity).
+  assert (Hwc0 : wipe_cond v (ch_epoch c)) by (apply wipe_cond_of; exact Hsmc).
+  assert (Htop' : (ch_top c < BOUND)%N) by (unfold C18Stream.BOUND in *; lia).
+  assert (Hcas : cas_block ch (String kc key) (exp_off (mr_exp ro)) (exp_epoch (mr_exp ro)) (ch_epoch c) rs0 =
+                 match cas_dec (ch_epoch c) (mr_exp ro) (sfind (String kc key) (ch_state c)) with
+                 | Some _ => (rs0, inr (RArr [RInt (Z.of_N (ch_top c)); RBulk (ch_epoch c); RBulk "position_mismatch";
+                                            RBulk (cur_val (ch_epoch c) (String kc key) (sfind (String kc key) (ch_state c)))]))
+                 | None => (rs0, inl tt)
+                 end).
+  { destruct (mr_exp ro) as [[eo ee]|]; [|reflexivity]. destruct Hexp as [He1 He2]. cbn [exp_off exp_epoch cas_dec]. unfold utoa.
+    apply (cas_block_spec rs0 ch kc key eo ee (ch_epoch c) (ch_state c) h (ch_top c)); assumption. }
+  destruct (cas_dec (ch_epoch c) (mr_exp ro) (sfind (String kc key) (ch_state c))) as [cp|] eqn:Ecas.
+  { (* position mismatch: nothing changes *)
+    rewrite (core_remove2_fail rs0 ch (String kc key) _ _ _ nonce now_ _ _ v h (ch_epoch c) (ch_top c) _ Hviews eq_refl Hh Hwc0 Hcas).
+    rewrite (parse_add_mismatch (ch_top c) (ch_epoch c) (String kc key) (sfind (String kc key) (ch_state c)));
+      [| unfold C18Stream.BOUND in Htop'; lia | assumption
+       | destruct (sfind (String kc key) (ch_state c)) as [e|] eqn:Ek; [apply (Hents (String kc key, e)); apply in_sfind; exact Ek | exact I]].
+    rewrite <- (cas_dec_cp _ _ _ _ Ecas).
+    eexists. eexists. eexists. split; [reflexivity|]. split; [reflexivity|].
+    apply R_clear. apply (R_mono U n); [lia | exact HR0]. }
+  rewrite (core_remove2_pass rs0 ch (String kc key) _ _ _ nonce now_ _ _ v h (ch_epoch c) (ch_top c) Hviews eq_refl Hh Hwc0 Hcas).
   assert (Hf : sfind (String kc key) (hash_or_empty (rv_state v))
                = match sfind (String kc key) (ch_state c) with Some e => Some (snd (enc_s (ch_epoch c) (String kc key, e))) | None => None end).
   { unfold v. cbn [rv_state]. rewrite state_view_hash. apply sfind_enc_s. }
@@ -746,6 +775,68 @@ Proof.
       * intros c' E. injection E as <-. apply chan_inv_new. assumption.
 Qed.
 
+(* ================= Clear ================= *)
+Lemma del_keys_spec ks : forall st n, exists n', del_keys st ks n = (fold_left delk ks st, n').
+Proof.
+  induction ks as [|k ks IH]; intros st n; [eexists; reflexivity|]. cbn [del_keys fold_left].
+  destruct (getk st k); apply IH.
+Qed.
+
+Lemma getk_fold_delk ks : forall st k, getk (fold_left delk ks st) k = if existsb (String.eqb k) ks then None else getk st k.
+Proof.
+  induction ks as [|k0 ks IH]; intros st k; [reflexivity|]. cbn [fold_left existsb]. rewrite IH.
+  destruct (existsb (String.eqb k) ks); [rewrite orb_true_r; reflexivity|]. rewrite orb_false_r.
+  destruct (String.eqb k k0) eqn:E.
+  - apply String.eqb_eq in E. subst. apply getk_delk_same.
+  - apply String.eqb_neq in E. apply getk_delk_other. assumption.
+Qed.
+
+Lemma sfind_sdel_chan {A} k k' (l : list (string * A)) :
+  sfind k' (sdel k l) = if String.eqb k' k then None else sfind k' l.
+Proof.
+  destruct (String.eqb k' k) eqn:E.
+  - apply String.eqb_eq in E. subst. apply sfind_sdel_same.
+  - apply String.eqb_neq in E. apply sfind_sdel_other. assumption.
+Qed.
+
+Lemma step_clear U n cf rs m ch :
+  cfg_ok cf = true -> keys_ok U -> In ch U -> R U n rs m -> step_goal U n cf rs m (MClear ch).
+Proof.
+  intros Hcf HK Hin HR.
+  pose proof (R_clear _ _ _ _ HR) as HR0. set (rs0 := clear_outbox rs) in *.
+  unfold step_goal. unfold rm_step. fold rs0. unfold rm_clear.
+  set (ks := [k_stream ch; k_meta ch; k_state ch; k_order ch; k_expire ch; k_smeta ch]).
+  change (redis_call rs0 ("del" :: ks)) with (cmd_del rs0 ks). unfold cmd_del. cbn [ks].
+  destruct (del_keys_spec ks rs0 0) as [n' Hd]. fold ks. rewrite Hd.
+  set (rs1 := fold_left delk ks rs0).
+  assert (Hg1 : forall k, getk rs1 k = if existsb (String.eqb k) ks then None else getk rs0 k) by (intros k; apply getk_fold_delk).
+  assert (Hc1 : getk rs1 k_cleanup = None).
+  { rewrite Hg1. replace (existsb (String.eqb k_cleanup) ks) with false by reflexivity. apply (R_cleanup _ _ _ _ HR0). }
+  rewrite (zrem1_none _ _ _ Hc1).
+  cbn [mm_step].
+  eexists. eexists. eexists. split; [reflexivity|]. split; [reflexivity|].
+  assert (Hin6 : forall k, In k ks -> existsb (String.eqb k) ks = true).
+  { intros k Hk. apply existsb_exists. exists k. split; [assumption | apply String.eqb_refl]. }
+  assert (Hout : forall k, ~ In k ks -> getk rs1 k = getk rs0 k).
+  { intros k Hk. rewrite Hg1. destruct (existsb (String.eqb k) ks) eqn:E; [|reflexivity].
+    apply existsb_exists in E as (x & Hx & Ex). apply String.eqb_eq in Ex. subst. contradiction. }
+  constructor.
+  - intros ch' Hin'. unfold mm_clear. cbn [mm_chans]. rewrite sfind_sdel_chan.
+    apply (chan_rel_frame rs1); [intros; apply getk_clear_outbox|].
+    destruct (String.eqb ch' ch) eqn:E.
+    + apply String.eqb_eq in E. subst ch'. cbn [chan_rel]. intros k Hk. rewrite Hg1. rewrite Hin6; [reflexivity|].
+      unfold chan_keys in Hk. unfold ks. cbn [In] in *. tauto.
+    + apply String.eqb_neq in E. apply (chan_rel_frame rs0); [|apply (R_chan _ _ _ _ HR0); assumption].
+      intros k Hk. apply Hout. unfold ks. cbn [In]. intros Hk'.
+      assert (Hk6 : In k (chan_keys ch) \/ k = k_order ch) by (unfold chan_keys; cbn [In]; destruct Hk' as [X|[X|[X|[X|[X|[X|[]]]]]]]; auto 10).
+      destruct Hk6 as [Hk6 | ->].
+      * exact (chan_keys_disjoint U ch' ch HK Hin' Hin E k Hk Hk6).
+      * exact (k_order_not_chan U ch ch' HK Hin Hin' Hk).
+  - intros ch' c'. unfold mm_clear. cbn [mm_chans]. rewrite sfind_sdel_chan. destruct (String.eqb ch' ch); [discriminate|].
+    intros H. apply (chan_inv_mono n); [lia|]. apply (R_inv _ _ _ _ HR0 ch' c' H).
+  - rewrite getk_clear_outbox. exact Hc1.
+Qed.
+
 (* ================= the whole run ================= *)
 Lemma step_ok U n cf rs m o :
   cfg_ok cf = true -> keys_ok U -> (forall ch, In ch (op_chan o) -> In ch U) -> R U n rs m ->
@@ -770,6 +861,7 @@ Proof.
     apply step_read_stream; try assumption.
     + apply Hin. left. reflexivity.
     + destruct (sfind ch (mm_chans m)) as [c|]; [exact H4|]. destruct since; [discriminate | reflexivity].
+  - apply step_clear; try assumption. apply Hin. left. reflexivity.
 Qed.
 
 Lemma run_agree U cf : cfg_ok cf = true -> keys_ok U -> forall ops n rs m,
@@ -794,6 +886,7 @@ Proof.
   constructor.
   - intros ch _. cbn [mm_init mm_chans sfind chan_rel]. intros k _. reflexivity.
   - intros ch c H. discriminate H.
+  - reflexivity.
 Qed.
 
 Theorem agree_core cf ops :
